@@ -211,6 +211,57 @@ def h_parse_format_string(ctx):
     ctx.cover('parse_format_string.returns')
 
 
+def h_template_fields(ctx):
+    """_template_fields(template): the names str.format will look up are the field names string.Formatter().parse reports - every one of them, in order,
+    except the `None` that stands for trailing literal text; in particular the EMPTY name of an auto-numbered field `{}` is a name (one that no captured
+    column has).  A template str.format cannot read is a ValueError."""
+    from pyvc.interp import PyRaise
+    sp = Spec()
+    I = Interp(ctx, sp)
+    SeqObj = z3.SeqSort(ObjS)
+    is_none = UF('is_none', ObjS, BoolS)
+    names = ctx.fresh('parsed.field_names', SeqObj)
+    other = [ctx.fresh('parsed.col%d' % j, SeqObj) for j in (0, 2, 3)]
+    for c in other:
+        ctx.assume(z3.Length(c) == z3.Length(names))
+    malformed = bool(ctx.choose(2, 'template_cannot_be_read'))
+
+    def m_parse(I_, a, k, n):
+        if malformed:
+            raise PyRaise('ValueError', (), 'Formatter.parse')
+        return SymSeq([other[0], names, other[1], other[2]], 4, ['pyvalue', 'pyvalue', 'pyvalue', 'pyvalue'])
+    sp.models['string.Formatter'] = Func(lambda I_, a, k, n: Obj(I_.fresh('formatter', ObjS), 'Formatter'))
+    sp.models['method:Obj:Formatter.parse'] = Func(m_parse)
+    Kept = Ghost('TemplateFields', [SeqObj], SeqObj, base=lambda s_: z3.Empty(SeqObj), step=lambda s_, k, acc: z3.If(is_none(s_[k]), acc, z3.Concat(acc, z3.Unit(s_[k]))))
+    fi = find_function('tally.format_parser._template_fields')
+    fr = Frame(fi, {})
+    comps = [n for n in ast.walk(fi.node) if isinstance(n, ast.ListComp)]
+    if len(comps) != 1:
+        raise Unsupported('_template_fields: expected one comprehension over Formatter().parse(template)')
+    ordinal = fr.loop_ordinals[id(comps[0])]
+
+    def as_seq(v):
+        if isinstance(v, list):
+            out = z3.Empty(SeqObj)
+            for x in v:
+                out = z3.Concat(out, z3.Unit(to_z3(x)))
+            return out
+        return v.cols[0]
+    sp.loops[('tally.format_parser._template_fields', ordinal)] = LoopSpec(
+        lambda I_, env, k, it: {'kept_so_far_are_the_names_that_are_not_None': as_seq(env['$acc%d' % ordinal]) == Kept(names, k)},
+        {'$acc%d' % ordinal: lambda c: SymSeq([c.fresh('kept', SeqObj)], None, ['pyvalue'])}, kind='property', unfold=lambda I_, env, k, it: Kept.unfold(names, k))
+    for f in Kept.unfold(names, z3.IntVal(-1)):
+        ctx.assume(f)
+    try:
+        r = I.call_function(fi, [ctx.fresh('template', StrS)])
+    except PyRaise as e:
+        ctx.check('C18.template_fields.unreadable_template_is_a_ValueError', z3.BoolVal(malformed and e.cls == 'ValueError'), 'property')
+        ctx.cover('_template_fields.raises')
+        return
+    ctx.check('C18.template_fields.every_field_name_is_kept_only_None_is_dropped', z3.BoolVal(not malformed) if not isinstance(r, (SymSeq, list)) else as_seq(r) == Kept(names, z3.Length(names)), 'property')
+    ctx.cover('_template_fields.returns')
+
+
 def _seq(v):
     if isinstance(v, SymSeq):
         return v.cols[0]
@@ -247,6 +298,7 @@ def h_position_reading(ctx):
 
 def harnesses(tier):
     return [Harness('parse_format_string', h_parse_format_string, [Q]),
+            Harness('_template_fields', h_template_fields, ['tally.format_parser._template_fields']),
             Harness('lemma.position_reading', h_position_reading, [])]
 
 
